@@ -231,6 +231,7 @@ pub struct Merged {
     pub inconclusive: BTreeMap<String, u64>,
     pub notes: BTreeMap<String, u64>,
     pub harness_errors: Vec<String>,
+    pub extra: Map<String, Value>,
 }
 
 impl Merged {
@@ -247,6 +248,7 @@ impl Merged {
             inconclusive: BTreeMap::new(),
             notes: BTreeMap::new(),
             harness_errors: vec![],
+            extra: Map::new(),
         }
     }
     pub fn add_json(&mut self, v: &Value) {
@@ -598,6 +600,11 @@ pub fn conclude(spec: &RunSpec, m: &Merged, wall_s: f64) -> i32 {
         "observation": crate::observe::OBSERVATION,
         "verdict": match exit { 0 => "held on what was observed", 1 => "violated", _ => "inconclusive / harness error" },
     });
+    if let Some(c) = coverage.as_object_mut() {
+        for (k, v) in &m.extra {
+            c.insert(k.clone(), v.clone());
+        }
+    }
     if let (Some(c), Some(x)) = (coverage.as_object_mut(), spec.extra.as_object()) {
         for (k, v) in x {
             c.insert(k.clone(), v.clone());
